@@ -146,11 +146,11 @@ Qed.
 
 (* one instance of the hypotheses of each theorem above (all by computation on the same problem) *)
 Example C22_clone_copies_every_field_nonvacuous : In ("Problem", "_fluents_inc_dec")%string Gen_Clone.all_fields.
-Proof. vm_compute. tauto. Qed.
+Proof. apply mem_pair_In. vm_compute. reflexivity. Qed.
 Example C22_clone_writes_only_initialised_fields_nonvacuous : In ("Problem", "_fluents_inc_dec")%string Gen_Clone.cloned_fields.
-Proof. vm_compute. tauto. Qed.
+Proof. apply mem_pair_In. vm_compute. reflexivity. Qed.
 Example C22_subclasses_reuse_problem_clone_nonvacuous : In "_trajectory_constraints"%string (Gen_Clone.cloned_of "Problem"%string).
-Proof. vm_compute. tauto. Qed.
+Proof. apply mem_str_In. vm_compute. reflexivity. Qed.
 Example C22_clone_equal_nonvacuous : wf (fst (load ex_state)) (snd (load ex_state)).
 Proof. apply wfb_wf. vm_compute. reflexivity. Qed.
 Example C22_simulation_nonvacuous :
